@@ -91,6 +91,7 @@ func isAEADCall(ins ssa.Instruction, m string) bool {
 }
 
 func c12(c *an.Check) {
+	lowOrderClassifier(c)
 	noUseAfterScrub(c, []*ssa.Function{c.P.Func("peer", "", "EncryptToEd25519"), c.P.Func("peer", "", "DecryptWithEd25519")}, map[string]int{"Decode": 0})
 	ed25519PrivateKeyDecodeGates(c)
 	p := c.P
